@@ -119,12 +119,12 @@ def run_family_check(ctx, pid, n_quick, n_thorough, schedules_quick=1, schedules
         rp = {'kind': 'scenario', 'item': {k: it[k] for k in ('wf', 'oc', 'script', 'input', 'schedule', 'extra') if k in it},
               'want': it.get('_want'), 'got': it.get('_got'), 'line': f.get('line')}
         ctx.add(f['prop'], f['rule'], detail_fn(f, it) if detail_fn else f['detail'], rp)
-    distinct = len({json.dumps([vlib.strip_wf(it['wf']), it['oc']], sort_keys=True) for it in items if len(it['wf']['steps']) > 1 or it['wf']['outputs']})
+    distinct = len({json.dumps([vlib.strip_wf(it['wf']), it['oc'], it.get('at') or it.get('stall') or ''], sort_keys=True) for it in items})
     ctx.cov(evaluations=stats['runs'], distinct_nontrivial=distinct,
             states=stats.get('meaning_states', 0) + stats.get('trace_states', 0),
             transitions=stats.get('meaning_generated', 0) + stats.get('trace_states', 0),
             traces_validated_against_impl=stats['traces'],
-            rule='seeded generator (lib/gen.py) of abstract workflows x outcome vectors x noise schedules; distinct = distinct (workflow, outcome vector) pairs',
+            rule='seeded generator (lib/gen.py) of abstract workflows x outcome vectors x noise schedules; distinct = distinct (workflow, outcome vector, injected stall/cancel site) triples',
             events_validated=stats['events'])
     samp = []
     for it in items[:2]:
